@@ -381,32 +381,43 @@ Fixpoint mem_nat (x : nat) (l : list nat) : bool :=
 (* pcb: cancelled instances whose own close callback has not started yet; stale: members of pcb
    that were in that state when the callback of a late destroy of ANOTHER instance ran - their
    map entry may be gone already, so their own callback (by name) removes a successor's entry *)
-Fixpoint oracle_go (lv cs ld orph pcb stale : list nat) (tr : list obs) : N :=
+Fixpoint oracle_go (lv cs ld orph pcb stale pend : list nat) (tr : list obs) : N :=
   match tr with
   | [] => 0%N
   | o :: r =>
       match o_l o with
       | LNew i =>
           match lv with
-          | [] => oracle_go [i] cs ld orph pcb stale r
+          | [] => oracle_go [i] cs ld orph pcb stale pend r
           | _ => if forallb (fun j => mem_nat j orph) lv then 4%N else 2%N
           end
-      | LCancelled i => oracle_go (rm i lv) cs ld (rm i orph) (i :: pcb) stale r
-      | LCloseBegin i => oracle_go lv (i :: cs) ld orph pcb stale r
-      | LDBegin i => oracle_go lv cs (if mem_nat i cs then i :: ld else ld) orph pcb stale r
+      | LCancelled i =>
+          (* an instance that had lost its map entry (orphan) and is torn down now: its own callback,
+             still to come, removes a successor's entry - it is displaced *)
+          oracle_go (rm i lv) cs ld (rm i orph) (i :: pcb) (if mem_nat i orph then i :: stale else stale) pend r
+      | LCloseBegin i => oracle_go lv (i :: cs) ld orph pcb stale pend r
+      | LDBegin i => oracle_go lv cs (if mem_nat i cs then i :: ld else ld) orph pcb stale pend r
       | LCbStart i =>
           if mem_nat i ld then
-            oracle_go lv cs ld (rm i lv ++ orph) (rm i pcb) (rm i pcb ++ stale) r
+            oracle_go lv cs ld (rm i lv ++ orph) (rm i pcb) (rm i pcb ++ stale) (i :: pend) r
           else if mem_nat i stale then   (* a displaced callback displaces further *)
-            oracle_go lv cs ld (rm i lv ++ orph) (rm i pcb) (rm i pcb ++ rm i stale) r
-          else oracle_go lv cs ld orph (rm i pcb) stale r
+            oracle_go lv cs ld (rm i lv ++ orph) (rm i pcb) (rm i pcb ++ rm i stale) (i :: pend) r
+          else oracle_go lv cs ld orph (rm i pcb) stale pend r
+      | LCallback i =>
+          (* the hook LCbStart is logged BEFORE the delete by name; the entry that is actually removed
+             is the one in the map when the callback completes. Once a late (or displaced) callback
+             of i has started, every completed callback of i may be that one: whoever is live then
+             (created between the start hook and the delete) has lost its map entry too *)
+          if mem_nat i pend then
+            oracle_go lv cs ld (rm i lv ++ orph) pcb (rm i pcb ++ stale) pend r
+          else oracle_go lv cs ld orph pcb stale pend r
       | LReturn i =>
-          if negb (o_sampled o) || opt_nat_eqb (o_map o) (Some i) then oracle_go lv cs ld orph pcb stale r
+          if negb (o_sampled o) || opt_nat_eqb (o_map o) (Some i) then oracle_go lv cs ld orph pcb stale pend r
           else if mem_nat i orph then 4%N else 3%N
-      | _ => oracle_go lv cs ld orph pcb stale r
+      | _ => oracle_go lv cs ld orph pcb stale pend r
       end
   end.
-Definition oracle (lv cs ld orph : list nat) (tr : list obs) : N := oracle_go lv cs ld orph [] [] tr.
+Definition oracle (lv cs ld orph : list nat) (tr : list obs) : N := oracle_go lv cs ld orph [] [] [] tr.
 
 (* c_trace: the forced part (replayed by the model); c_tail: events of the free-running drain
    (or of a stress run), on which only the oracle is evaluated *)
